@@ -108,6 +108,14 @@ def collectFwd (sh : K → Bool) (A B : List (K × V)) : Nat → MergeSt K V →
     | none => []
     | some e => e :: collectFwd sh A B n (mNext cmp sh A B s)
 
+/-- iterate `mPrev`, collecting the entries -/
+def collectBwd (sh : K → Bool) (A B : List (K × V)) : Nat → MergeSt K V → List (K × V)
+  | 0, _ => []
+  | n + 1, s =>
+    match s.entry with
+    | none => []
+    | some e => e :: collectBwd sh A B n (mPrev cmp sh A B s)
+
 end
 
 /-- three-way comparison on `Nat` for the concrete witnesses -/
